@@ -242,6 +242,8 @@ def run_check(prop, tiers, assumptions, tier, budget_s=None):
         "interpreters_launched": sum(len(r["configs"]) for r in results)
         + int(stats["restarts"]),
         "distinct_fingerprints": len(fps),
+        "interpreters_started_with_python_-O": sum(
+            1 for f in fps if '"debug": false' in f),
         "faults_fired": {
             "crash_restarts": int(stats["crash_restarts"]),
             "unpickles": int(stats["unpickles"]),
